@@ -819,6 +819,7 @@ def run(tier: str) -> int:
                     ck.py_violation(l, im, f"operation `{o}` returned different values in two histories on the same receiver",
                                     py=snippet(l))
     ck.add_src(['equals_impl', 'Tag_eq', 'TagList_eq', 'HTMLDependency_eq'], quick=250, thorough=2500)
+    ck.add_src(['Tag_repr', 'Tag_repr_html', 'TagList_repr', 'TagList_repr_html'], quick=60, thorough=400)
     ck.correspond(holds=True)
     n_py = snapshot_oracle(ck, rng, 2 if tier == "quick" else 12)
     ck.extra_cov["py_pool_operations"] = n_py
